@@ -181,6 +181,8 @@ def gen_c10(rng: random.Random, tier: str) -> Plan:
     cfg["faults"] = faults
     cfg["batches"] = [rng.choice([2, 3, 5]), rng.choice([1, 1, 2, 8])]
     cfg["check_subset"] = 3
+    if rng.random() < 0.15:
+        cfg["dtype"] = "float32"
     poly = (not monotonic) and rng.random() < 0.3
     if poly:
         kinds = ["polynomial"]
@@ -267,7 +269,7 @@ def gen_c10(rng: random.Random, tier: str) -> Plan:
             ops.append({"op": "mode", "target": rng.choice(m.names), "train": rng.random() < 0.4})
         else:
             ops.append({"op": "eval", "target": rng.choice(m.names),
-                        "batch": rng.choice([1, 2, 4, 7]), "seed": _seed(rng)})
+                        "batch": rng.choice([1, 2, 4, 7, 7, 257, 1025]), "seed": _seed(rng)})
     return {"config": cfg, "ops": ops}
 
 
@@ -486,6 +488,8 @@ def gen_c17(rng: random.Random, tier: str) -> Plan:
     cfg["faults"] = False
     cfg["batches"] = [2]
     cfg["check_subset"] = 2
+    if rng.random() < 0.2:
+        cfg["dtype"] = "float32"
     ops: list[dict[str, Any]] = []
     m = _Model()
     ops.append({"op": "compile_base", "name": "b0", "recipe": r0, "seed": _seed(rng),
@@ -556,6 +560,8 @@ def gen_c19(rng: random.Random, tier: str) -> Plan:
         scope0 = list(range(nv))
     cfg["checks"] = ["S1", "S3", "memo", "D2"]
     cfg["faults"] = False
+    if rng.random() < 0.2:
+        cfg["dtype"] = "float32"
     cfg["batches"] = [rng.choice([2, 3]), rng.choice([1, 4])]
     cfg["check_subset"] = 3
     ops: list[dict[str, Any]] = []
@@ -635,8 +641,8 @@ def gen_c19(rng: random.Random, tier: str) -> Plan:
             ops.append({"op": "foreign_compile", "target": rng.choice(m.names), "seed": _seed(rng),
                         "flags": {"fold": rng.random() < 0.5, "optimize": rng.random() < 0.5}})
         else:
-            ops.append({"op": "eval", "target": rng.choice(m.names), "batch": rng.choice([1, 2, 5]),
-                        "seed": _seed(rng)})
+            ops.append({"op": "eval", "target": rng.choice(m.names),
+                        "batch": rng.choice([1, 2, 5, 5, 300, 1030]), "seed": _seed(rng)})
     if rng.random() < 0.75:
         # the canonical scenario: train, checkpoint, train on, crash, recompile, restore
         ops.append(mutate())
